@@ -121,7 +121,9 @@ def process(ctx, items, labels, source, totals, shrink_budget, judge=None, word=
             if lines is not None:
                 rep["src"] = prog["src"]
                 seen = totals["shrunk"].setdefault(klass, 0)
-                if seen < shrink_budget:
+                is_known = any(k.get("property") == ctx.prop and k.get("class") == klass and k.get("status") == "known"
+                               for k in ctx.known)
+                if seen < shrink_budget and not is_known:   # known classes already carry their minimal witness
                     totals["shrunk"][klass] = seen + 1
                     status_diff = base["status"] != r["status"] or base["status"] == "err"
                     if any((x.get("errwhere") or "").startswith(("formula.py", "cycles.py")) for x in (base, r)):
